@@ -5,7 +5,7 @@ m=$1; p=${2:-${m%%-*}}
 d=seeded/$m; [ -d $d ] || d=selftest/reverts/$m; [ -d $d ] || d=selftest/refactors/$m
 S=/var/tmp/tm-$m-$$; rm -rf $S; mkdir -p $S; cp -r /repo/pycaption $S/
 (cd $S && patch -p1 -s -i /verif/$d/patch.diff >/dev/null 2>&1) || { echo "$m PATCH DOES NOT APPLY"; rm -rf $S; exit 2; }
-out=$(VERIF_REPO=$S ./check $p 2>&1)
+out=$(VERIF_REPO=$S timeout 900 ./check $p 2>&1)
 echo "$m $p $(echo "$out" | tail -1 | grep -o 'undecided.*')"
 [ -n "$VERBOSE" ] && echo "$out" | grep -E "VIOLATION|UNDECIDED" | cut -c1-200 | head -${VERBOSE}
 rm -rf $S
